@@ -218,6 +218,12 @@ def run_case(ctx, case):
                 ("insert-foreign-key+", lambda m: m.__setitem__(FOREIGN + "+", [1]), FOREIGN),
                 # ... and one whose value is an empty section
                 ("insert-foreign-key{}", lambda m: m.__setitem__(FOREIGN, {}), FOREIGN)]
+        # a foreign key that is a proper string prefix of a declared key of this mapping (a half-typed name), holding null / an empty section
+        here = get_at(obj, path) if path else obj
+        longer = [k for k in (here if isinstance(here, dict) else {}) if isinstance(k, str) and len(k) >= 2 and k[:-1] not in here and k[:-1] not in ("subcomman",)]
+        if longer and kind in ("dc", "init_args", "top", "group", "subcommand-section"):
+            pre = longer[0][:-1]
+            muts.append(("insert-prefix-of-a-declared-key:null", lambda m, pre=pre: m.__setitem__(pre, None), pre))
         if kind == "spec" and len(path) == 1 and _implied_base(shapes.get(path[0])) and str(get_at(obj, path).get("class_path", "")).endswith(".Base"):
             # short form: class_path left out because the declared class is concrete; a foreign key beside init_args is still foreign
             def short_form(m):
@@ -353,6 +359,7 @@ def required_family(ctx, only=None):
         p.add_argument("--top", type=str, required=True)
         p.add_argument("--grp.need", type=int, required=True)
         p.add_argument("--opt", type=int, default=1)
+        p.add_argument("--rdef", type=int, required=True, default=5)  # required although it has a default: it can be left out, not nulled
         from typing import Any
 
         p.add_argument("--anyarg", type=Any, default=None)
@@ -380,13 +387,15 @@ def required_family(ctx, only=None):
         sc2.add_subcommand("fast", fast)
         return p
 
-    full = {"fit": {"top": "t", "grp": {"need": 1}, "inner": {"x": 4}, "after": 6, "my_inner": {"z": 8}, "lk": {"class_path": __name__ + ".LinkedReq", "init_args": {"must": 3}}, "subcommand": "fit", "fit": {"data": "d"}},
-            "eval": {"top": "t", "grp": {"need": 1}, "inner": {"x": 4}, "after": 6, "my_inner": {"z": 8}, "lk": {"class_path": __name__ + ".LinkedReq", "init_args": {"must": 3}}, "subcommand": "eval", "eval": {"ckpt": "c", "how": "fast", "fast": {"n": 2}}}}
-    required = {"fit": [["top"], ["grp", "need"], ["fit", "data"], ["inner", "x"], ["after"], ["my_inner", "z"], ["lk", "init_args", "must"]],
-                "eval": [["top"], ["grp", "need"], ["eval", "ckpt"], ["eval", "fast", "n"], ["inner", "x"], ["after"], ["my_inner", "z"], ["lk", "init_args", "must"]]}
+    full = {"fit": {"top": "t", "grp": {"need": 1}, "inner": {"x": 4}, "after": 6, "my_inner": {"z": 8}, "rdef": 7, "lk": {"class_path": __name__ + ".LinkedReq", "init_args": {"must": 3}}, "subcommand": "fit", "fit": {"data": "d"}},
+            "eval": {"top": "t", "grp": {"need": 1}, "inner": {"x": 4}, "after": 6, "my_inner": {"z": 8}, "rdef": 7, "lk": {"class_path": __name__ + ".LinkedReq", "init_args": {"must": 3}}, "subcommand": "eval", "eval": {"ckpt": "c", "how": "fast", "fast": {"n": 2}}}}
+    required = {"fit": [["top"], ["grp", "need"], ["fit", "data"], ["inner", "x"], ["after"], ["my_inner", "z"], ["lk", "init_args", "must"], ["rdef"]],
+                "eval": [["top"], ["grp", "need"], ["eval", "ckpt"], ["eval", "fast", "n"], ["inner", "x"], ["after"], ["my_inner", "z"], ["lk", "init_args", "must"], ["rdef"]]}
 
     def argv_of(obj, sub):
         out = [f"--top={obj['top']}"] if obj.get("top") is not None else []
+        if obj.get("rdef") is not None:
+            out.append(f"--rdef={obj['rdef']}")
         if (obj.get("grp") or {}).get("need") is not None:
             out.append(f"--grp.need={obj['grp']['need']}")
         if (obj.get("inner") or {}).get("x") is not None:
@@ -447,7 +456,7 @@ def required_family(ctx, only=None):
 
     if only is not None and only.get("mutation") != "none":
         return one(only)
-    for sub, path, mut, channel, defaults in ([] if only is not None else itertools.product(("fit", "eval"), range(8), ("remove", "null", "remove-section"), ("object", "string", "argv", "--cfg"), (True, False))):
+    for sub, path, mut, channel, defaults in ([] if only is not None else itertools.product(("fit", "eval"), range(9), ("remove", "null", "remove-section"), ("object", "string", "argv", "--cfg"), (True, False))):
         if path >= len(required[sub]):
             continue
         key = required[sub][path]
@@ -455,6 +464,8 @@ def required_family(ctx, only=None):
             continue
         if mut == "null" and channel == "argv":
             continue
+        if key == ["rdef"] and mut != "null":
+            continue  # (it has a default: leaving it out is legal)
         case = {"kind": "required", "sub": sub, "key": key, "mutation": mut, "channel": channel, "defaults": defaults}
         ctx.begin(case)
         one(case)
